@@ -41,6 +41,17 @@ def correspond(ctx):
         K.c03_flow(ctx, ADAPTERS[k], ctx.n(600, 2500))
     _fchk.c03_flow(ctx, ctx.n(800, 3000))
     from ._cube import CUBE
+    from ._fcidump import corr_index
+    from ._mol2 import MOL2
+
+    K.c03_flow(ctx, MOL2, ctx.n(600, 2500))
+    from ._gro import GRO
+
+    K.c03_flow(ctx, GRO, ctx.n(600, 2500))
+    corr_index(ctx, ctx.n(6, 9))
+    from ._poscar import corr_struct
+
+    corr_struct(ctx, ctx.n(200, 800))
 
     K.c03_flow(ctx, CUBE, ctx.n(800, 3000))
     _fchk.corr_shuffles(ctx)
